@@ -9,6 +9,8 @@ import (
 	pb "go.etcd.io/raft/v3/raftpb"
 )
 
+const timeScale = 16384
+
 type kvIn struct {
 	Write bool
 	Key   int
@@ -74,6 +76,7 @@ func (w *World) checkLinearizable() {
 		return ""
 	}
 	id := 0
+	lastC, pos := -1, 0
 	for i := uint64(1); i <= maxIdx; i++ {
 		p, ok := m.deliveredKV[i]
 		if !ok {
@@ -92,17 +95,49 @@ func (w *World) checkLinearizable() {
 			continue
 		}
 		_ = pr
-		ops = append(ops, porcupine.Operation{ClientId: id, Input: kvIn{true, payloadKey([]byte(p)), fmt.Sprintf("%s@%d", trunc([]byte(p)), i)}, Call: int64(c * 4), Output: "", Return: int64(c*4 + 1)})
+		if c == lastC {
+			pos++
+		} else {
+			lastC, pos = c, 0
+		}
+		t := int64(c)*timeScale + int64(min(pos, 2000))*4
+		ops = append(ops, porcupine.Operation{ClientId: id, Input: kvIn{true, payloadKey([]byte(p)), fmt.Sprintf("%s@%d", trunc([]byte(p)), i)}, Call: t, Output: "", Return: t + 1})
 		id++
 	}
 	gets := 0
+	type rd struct {
+		key      int
+		val      string
+		call, rt int64
+	}
+	var reads []rd
 	for _, op := range m.kv {
 		if op.write || op.open || op.ret < 0 {
 			continue
 		}
 		var at uint64
 		fmt.Sscan(op.val, &at)
-		ops = append(ops, porcupine.Operation{ClientId: id, Input: kvIn{false, op.key, ""}, Call: int64(op.call*4 + 2), Output: valueAt(at, op.key), Return: int64(op.ret*4 + 3)})
+		reads = append(reads, rd{op.key, valueAt(at, op.key), int64(op.call)*timeScale + timeScale - 2, int64(op.ret)*timeScale + timeScale - 1})
+	}
+	// A read whose interval contains the interval of another read of the same
+	// key with the same result is implied by that one: drop it (keeps the
+	// search small when many identical reads overlap).
+	for i, a := range reads {
+		implied := false
+		for j, b := range reads {
+			if i == j || a.key != b.key || a.val != b.val {
+				continue
+			}
+			if b.call >= a.call && b.rt <= a.rt && (b.call > a.call || b.rt < a.rt || j < i) {
+				implied = true
+				break
+			}
+		}
+		if implied {
+			w.Stats["porcupine-gets-implied"]++
+			continue
+		}
+		ops = append(ops, porcupine.Operation{ClientId: id, Input: kvIn{false, a.key, ""}, Call: a.call, Output: a.val, Return: a.rt})
 		id++
 		gets++
 	}
